@@ -7,6 +7,13 @@ from core import Broken
 UNITS_DIR = os.path.join(core.VERIF, 'units')
 
 
+ALSO_SERVES = {
+    'cbor_chunks': ['C06', 'C03'], 'json_compact_encoder': ['C01'], 'json_decoder': ['C01', 'C09'], 'json_literals': ['C01'], 'json_structure': ['C01'], 'json_depth': ['C01'],
+    'object_dedup': ['C09', 'C01'], 'ojson_bloom': ['C02'], 'jsonpointer': ['C15'], 'sorted_object_insert': ['C16', 'C15', 'C02'], 'json_flatten': ['C09'], 'storage_kinds': ['C19'] and [],
+    'json_reader': ['C01'], 'cbor_count': ['C10'], 'to_integer': ['C14'], 'toon_unescape': ['C03'] and [], 'half': ['C04'], 'digit_classes': ['C03'],
+}
+
+
 def load_unit(name):
     d = os.path.join(UNITS_DIR, name)
     p = os.path.join(d, 'recipe.py')
@@ -17,6 +24,12 @@ def load_unit(name):
     spec.loader.exec_module(mod)
     mod.NAME = name
     mod.DIR = d
+    # properties a unit serves in addition to the ones its recipe names (the same function often carries several properties: a JSON Pointer edit
+    # is also a JSON Patch step, a decoder is also one half of a round trip); kept in one place so that the mapping can be reviewed as a whole
+    for h in mod.HARNESSES:
+        for q in ALSO_SERVES.get(name, ()):
+            if q not in h.props:
+                h.props = list(h.props) + [q]
     return mod
 
 
